@@ -41,6 +41,9 @@ Leafs ==
     [] Theme = "nest" -> {T("text", "t2", NoE, ""), T("print", "", Dv, ""), T("print", "", X, ""), T("include", "incd", NoE, "")}
     [] Theme = "global" -> {T("text", "t1", NoE, ""), T("print", "", X, ""), T("print", "", Iv, ""), T("setg", "x", Iv, ""), T("set", "x", Iv, ""),
                             T("print", "", ELoop("index"), "")}
+    \* "gcap": assignments (set / set_global) INSIDE captures INSIDE loops and the other way round, read back after each
+    \* construct ends -- three leaves, so 6 (7) tokens are affordable: for, capture, assignment, end, end, print
+    [] Theme = "gcap" -> {T("print", "", X, ""), T("setg", "x", Iv, ""), T("set", "x", Iv, "")}
     [] Theme = "escape" -> {T("text", "t2", NoE, ""), T("print", "", Dv, ""), T("print", "", ELit(<<"'", "<">>), ""),
                             T("print", "", ECat(Dv, ELit(<<"&">>)), ""), T("print", "", EFilt("upper", Dv), ""),
                             T("print", "", EFilt("safe", Dv), ""), T("print", "", EFilt("upper", EFilt("safe", Dv)), ""),
@@ -50,12 +53,12 @@ Leafs ==
                             T("print", "", X, ""), T("print", "", EFilt("upper", X), ""), T("print", "", EAttr(EVar("m"), "a"), ""),
                             T("print", "", ENum(7), ""), T("include", "incd", NoE, ""), T("set", "x", Dv, ""),
                             T("set", "x", EFilt("safe", Dv), "")}
-IfConds == CASE Theme = "flow" -> {X, Iv, ELoop("first")} [] Theme = "scope" -> {X, Y} [] Theme = "nest" -> {} [] OTHER -> {X}
+IfConds == CASE Theme = "flow" -> {X, Iv, ELoop("first")} [] Theme = "scope" -> {X, Y} [] Theme \in {"nest", "gcap"} -> {} [] OTHER -> {X}
 ForHeads ==
   CASE Theme = "flow" -> {T("for", "i", EVar("xs"), ""), T("for", "i", EVar("es"), ""), T("for", "i", EVar("s"), ""), T("for", "x", EVar("xs"), ""), T("for", "i", EVar("u"), "")}
     [] Theme = "scope" -> {T("for", "x", EVar("xs"), ""), T("for", "i", EVar("xs"), "")}
     [] Theme = "capture" -> {T("for", "i", EVar("xs"), "")}
-    [] Theme = "global" -> {T("for", "i", EVar("xs"), "")}
+    [] Theme \in {"global", "gcap"} -> {T("for", "i", EVar("xs"), "")}
     [] Theme = "nest" -> {}
     [] Theme = "escape" -> {T("for", "i", Dv, ""), T("forkv", "i", EVar("m"), "x")}
 CapHeads ==
@@ -63,6 +66,7 @@ CapHeads ==
     [] Theme = "escape" -> {T("setblock", "x", NoE, ""), T("setblock", "x", NoE, "upper"), T("filter", "upper", NoE, ""), T("filter", "wrap_safe", NoE, "")}
     [] Theme = "global" -> {T("setgblock", "x", NoE, ""), T("setblock", "x", NoE, ""), T("setgblock", "x", NoE, "upper")}
     [] Theme = "nest" -> {T("setblock", "x", NoE, ""), T("filter", "upper", NoE, "")}
+    [] Theme = "gcap" -> {T("setblock", "y", NoE, ""), T("filter", "upper", NoE, ""), T("setgblock", "y", NoE, "")}
     [] OTHER -> {}
 HasElif == Theme = "flow"
 HasBrk == Theme \in {"flow", "capture"}
@@ -74,7 +78,7 @@ Base == [d |-> DStr, xs |-> ArrV(<<IntV(1), IntV(2)>>), es |-> ArrV(<<>>), s |->
          m |-> MapV(<<"a">>, <<StrV(<<"\"">>, FALSE)>>)]
 Env(ctx, gctx, ae) == [ctx |-> ctx, gctx |-> gctx, ae |-> ae, esc |-> "html", lib |-> Lib, texts |-> Texts]
 Envs ==
-  CASE Theme \in {"flow", "capture", "global", "nest"} -> << Env(Base, EmptyF, FALSE), Env(("x" :> IntV(0)) @@ Base, ("y" :> IntV(5)), FALSE) >>
+  CASE Theme \in {"flow", "capture", "global", "nest", "gcap"} -> << Env(Base, EmptyF, FALSE), Env(("x" :> IntV(0)) @@ Base, ("y" :> IntV(5)), FALSE) >>
     [] Theme = "scope" -> << Env(Base, EmptyF, FALSE),
                              Env(("x" :> StrV(<<"c">>, FALSE)) @@ Base, ("x" :> StrV(<<"G">>, FALSE)) @@ ("y" :> StrV(<<"H">>, FALSE)), FALSE),
                              Env(Base, ("x" :> StrV(<<"G">>, FALSE)), FALSE),
